@@ -23,6 +23,7 @@ structure Inv {Q : Type} (e : Env) (pool : List Tx) {ops : QueueOps Q} (law : Qu
   weight : s.blockWeight = BLOCK_HEADER_OVERHEAD * WITNESS_SCALE + e.cbWeight
     + (if s.witnessIncluded then WITNESS_RESERVE else 0) + ((txsOf pool s.sel).map (·.weight)).sum
   weightLim : s.blockWeight < e.maxWeight
+  wiOnly : s.witnessIncluded = true → ∃ t ∈ txsOf pool s.sel, t.hasWitness = true
   qOk : ∀ x, law.mem s.queue x → ItemOk e pool x
   wOk : ∀ x ∈ s.waiting, ItemOk e pool x
 
@@ -157,7 +158,7 @@ theorem commitTx_inv {e : Env} {pool : List Tx} (hp : PoolOk pool) (he : EnvOk e
   refine
     { selValid := ?_, selNodup := ?_, viewOk := ?_, spentOk := ?_, conn := ?_, txsOk := ?_, deps := ?_,
       fees := ?_, feeSum := ?_, sigs := ?_, sigSum := ?_, sigLim := ?_, weight := ?_, weightLim := ?_,
-      qOk := hrel.2, wOk := hrel.1 }
+      wiOnly := ?_, qOk := hrel.2, wOk := hrel.1 }
   · -- selValid
     intro j hj
     rcases List.mem_append.1 hj with h1 | h1
@@ -343,5 +344,25 @@ theorem commitTx_inv {e : Env} {pool : List Tx} (hp : PoolOk pool) (he : EnvOk e
         omega
   · -- weightLim
     exact hw2
+  · -- wiOnly
+    intro hwi'
+    have hwi2 : (s.witnessIncluded || (reserve != 0)) = true := hwi'
+    show ∃ t1 ∈ txsOf pool (s.sel ++ [it.idx]), t1.hasWitness = true
+    rw [htxs]
+    cases hwi : s.witnessIncluded with
+    | true =>
+      rcases h.wiOnly hwi with ⟨t1, ht1, hw1'⟩
+      exact ⟨t1, List.mem_append_left _ ht1, hw1'⟩
+    | false =>
+      refine ⟨t, by simp, ?_⟩
+      rw [hwi] at hwi2
+      simp only [Bool.false_or, bne_iff_ne, ne_eq] at hwi2
+      cases hhw : t.hasWitness with
+      | true => rfl
+      | false =>
+        exfalso
+        apply hwi2
+        rw [hres]
+        simp [hhw]
 
 end BV.C12
